@@ -1021,6 +1021,10 @@ def run_case(ops, kind):
                 obs.append(o)
         if with_driver:
             im.check_bytes()
+    except (Hang, LockHeld):
+        # the watchdog fired outside the guarded call sites (e.g. inside a callback of the real driver)
+        im.hung = True
+        im.fail('a call into the Irc object did not return (it waits for ever for the lock of the queue)')
     finally:
         im.close()
     real_ops = expanded
